@@ -21,6 +21,9 @@ def run(F, X, rep):
     R.a1_succeeded_short_circuit(C, rep, "C05-A1")
     R.a2_pending_pay_only_after_none(C, rep, "C05-A2")
     R.a3_one_lifecycle_per_entry(C, rep, "C05-A3")
+    # "per hash": the table that gives one lifecycle at a time is keyed by the invoice's payment hash
+    import rules_ext as E5
+    E5.k_key_is_invoice_hash(C, rep, "C05-A8")
     import rules_hh as H3
     if H3.need_hh(C, rep, "C05-A3"):
         # ... and stays the only one: the table entry is removed only by that lifecycle's final answer
